@@ -18,31 +18,49 @@ Proof.
   intros H Hc. destruct e; step_inv H; autorewrite with frame; simpl; auto; congruence.
 Qed.
 
-Lemma aget_map_close cp t m :
+Lemma aget_map_close_gen cp t m :
   t_closed (aget topic0 t m) = true ->
   t_closed (aget topic0 t (map (fun kv => (fst kv, close_topic_rec cp (snd kv))) m)) = true.
 Proof.
   induction m as [|[k v] m IH]; simpl; intros H; [exact H|].
   destruct (t =? k); [apply close_topic_closed|apply IH, H].
 Qed.
+Lemma aget_map_close s t :
+  t_closed (gt s t) = true -> t_closed (aget topic0 t (close_all s)) = true.
+Proof. apply aget_map_close_gen. Qed.
 
 Lemma tclosed_mono s e s' t :
   step s e = Some s' -> t_closed (gt s t) = true -> t_closed (gt s' t) = true.
 Proof.
   intros H Hc. destruct e; step_inv H; autorewrite with frame; eqb_cases; simpl;
     rewrite ?set_chan_closed, ?close_topic_closed; auto; try congruence.
-  apply aget_map_close, Hc.
+  all: apply aget_map_close, Hc.
 Qed.
 
 (** Queue.Close closes every topic that exists at that moment *)
+Lemma close_all_closes s t :
+  In t (map fst (s_topics s)) -> t_closed (aget topic0 t (close_all s)) = true.
+Proof.
+  unfold close_all. intros Hin.
+  induction (s_topics s) as [|[k v] m IH]; simpl in *; [contradiction|].
+  destruct (t =? k) eqn:E; [apply close_topic_closed|].
+  destruct Hin as [->|Hin]; [rewrite N.eqb_refl in E; discriminate|apply IH, Hin].
+Qed.
+
 Lemma close_queue_closes_all s s' t :
   step s ECloseQueue = Some s' -> s_qclosed s = false ->
   In t (map fst (s_topics s)) -> t_closed (gt s' t) = true.
 Proof.
-  intros H Hq Hin. simpl in H. rewrite Hq in H. injection H as <-. rewrite gt_sq.
-  induction (s_topics s) as [|[k v] m IH]; simpl in *; [contradiction|].
-  destruct (t =? k) eqn:E; [apply close_topic_closed|].
-  destruct Hin as [->|Hin]; [rewrite N.eqb_refl in E; discriminate|apply IH, Hin].
+  intros H Hq Hin. simpl in H. rewrite Hq in H.
+  destruct (s_qclosing s); [discriminate|]. injection H as <-. rewrite gt_sq.
+  apply close_all_closes, Hin.
+Qed.
+
+Lemma close_qbegin_closes_all s s' t :
+  step s ECloseQBegin = Some s' -> In t (map fst (s_topics s)) -> t_closed (gt s' t) = true.
+Proof.
+  intros H Hin. simpl in H. destruct (s_qclosing s); [discriminate|]. injection H as <-. rewrite gt_sqb.
+  apply close_all_closes, Hin.
 Qed.
 
 (** along traces *)
@@ -121,7 +139,7 @@ Qed.
     error, no send of [c] parks, and a wait of [c] returns (with ErrIsQueueClosed if the
     client is closed; with ErrChannelClosed if the message's topic existed when the queue
     was closed -- more generally whenever that topic is closed). *)
-Definition after_close_errors_stmt : Prop :=
+Definition after_close_errors_base_stmt : Prop :=
   forall cp tr1 s c, run (init cp) tr1 = Some s ->
     c_closed (gc s c) = true \/ s_qclosed s = true ->
   forall tr2 s2, run s tr2 = Some s2 ->
@@ -131,7 +149,7 @@ Definition after_close_errors_stmt : Prop :=
     /\ (forall o timed, t_closed (gt s (o_topic (go s2 o))) = true ->
           exists r s3, step s2 (EWait c o timed r) = Some s3).
 
-Lemma after_close_errors_proof : after_close_errors_stmt.
+Lemma after_close_errors_base : after_close_errors_base_stmt.
 Proof.
   intros cp tr1 s c Hr1 Hc tr2 s2 Hr2.
   assert (Hc2 : c_closed (gc s2 c) = true \/ s_qclosed s2 = true).
